@@ -196,7 +196,8 @@ def quiet_logging():
 
 
 def explore(ctx: Ctx, sub: str, strategy, check: Callable[[Any, Ctx], None], examples: int,
-            batch: Optional[int] = None, shrink: bool = True, max_restarts: int = 12):
+            batch: Optional[int] = None, shrink: bool = True, max_restarts: int = 12,
+            minimize: Optional[Callable[[Violation, Ctx], Violation]] = None):
     """Run `check(case, ctx)` over `examples` cases drawn from `strategy` (Hypothesis), in seeded batches.
 
     A Violation whose signature is listed as an open known finding is recorded, excluded and the search restarts;
@@ -239,6 +240,14 @@ def explore(ctx: Ctx, sub: str, strategy, check: Callable[[Any, Ctx], None], exa
         try:
             test()
         except Violation as v:
+            if minimize is not None:
+                try:
+                    v = minimize(v, ctx) or v
+                    v.sub = sub
+                except Violation:
+                    raise
+                except Exception as e:       # minimisation is best effort
+                    ctx.rec.notes.append("minimize failed: %s" % e)
             if _is_known(ctx, v.sig) and restarts < max_restarts:
                 ctx.rec.known[v.sig] = v.to_dict()
                 ctx.excluded.add(v.sig)
